@@ -186,8 +186,26 @@ impl Property for C04 {
                     match text[cursor..].find(protected) {
                         Some(p) => cursor += p + protected.len(),
                         None => {
+                            // known classes (recorded, not repaired: the repair would change
+                            // the text emitted under released style editions, cf. C09)
+                            let before = src[..n.lo].trim_end();
+                            let known = if n.kind == "foreign" {
+                                Some("foreign-item")
+                            } else if n.kind == "expr" && protected.starts_with('(') && before.ends_with('(') && opt(&opts, "remove_nested_parens") != Some("false") {
+                                Some("nested-paren")
+                            } else if n.kind == "expr" && protected.starts_with('{') && before.ends_with('|') {
+                                Some("closure-body-block")
+                            } else {
+                                None
+                            };
+                            if let Some(k) = known {
+                                if !judge_known {
+                                    o.excluded.push(format!("known-class:skip-ignored/{k}"));
+                                    continue;
+                                }
+                                return Outcome::fail(format!("skipped-{}-changed/{k}", n.kind), format!("the {} carrying the skip attribute does not appear byte for byte\n--- protected bytes ---\n{protected}\n--- input ---\n{src}\n--- output ---\n{text}\nopts {opts:?}", n.kind)).nontrivial(true);
+                            }
                             let class = format!("skipped-{}-changed", n.kind);
-                            let _ = judge_known;
                             return Outcome::fail(class, format!("the {} carrying the skip attribute does not appear byte for byte\n--- protected bytes ---\n{protected}\n--- input ---\n{src}\n--- output ---\n{text}\nopts {opts:?}", n.kind)).nontrivial(true);
                         }
                     }
